@@ -210,3 +210,24 @@ func init() {
 		absSigs:     map[string]string{"shaSum": "Bytes → Bytes → Bytes", "b64enc": "Bytes → Bytes"},
 	})
 }
+
+func init() {
+	g2lUnits = append(g2lUnits, &g2lUnit{
+		out: "FnNoteKey", ns: "NoteKey", pkgDir: "sumdb/note",
+		imports:     []string{"ModVerif.Basic.GoRtNote", "ModVerif.Basic.GoRtStrconv", "ModVerif.Generated.Facts", "ModVerif.Generated.FnNote"},
+		opens:       []string{"ModVerif.Generated.Note"},
+		structNames: []string{"verifier", "signer"},
+		noEq:        map[string]bool{"verifier": true, "signer": true},
+		ifaceStructs: map[string]string{"Verifier": "", "Signer": ""},
+		ifaces:       map[string]string{"Verifiers": "Bytes → Int → (Verifier × Option String)"},
+		errFields:    map[string]bool{},
+		fns: []string{"verifier.Name", "verifier.KeyHash", "verifier.Verify", "signer.Name", "signer.KeyHash", "signer.Sign",
+			"NewVerifier", "NewSigner"},
+		exclude: map[string]bool{"VerifierList": true},
+		absFuncs: map[string]string{"ed25519.Verify": "edVerify", "ed25519.Sign": "edSign", "ed25519.NewKeyFromSeed": "edNewKey", "unicode.IsSpace": "isSpace"},
+		absCalls: map[string]string{"base64.StdEncoding.DecodeString": "b64dec", "h.Sum": "shaSum:recv"},
+		stdCalls: map[string]stdFn{"strconv.ParseUint": {"parseUint", false}},
+		absSigs: map[string]string{"edVerify": "Bytes → Bytes → Bytes → Bool", "edSign": "Bytes → Bytes → Bytes", "edNewKey": "Bytes → Bytes",
+			"b64dec": "Bytes → (Bytes × Option String)", "isSpace": "Int → Bool", "shaSum": "Bytes → Bytes → Bytes"},
+	})
+}
